@@ -3,6 +3,8 @@
 ID=$1; TIER=${2:-quick}; CHECKS=${3:-$ID}
 for d in /var/tmp/seeded-out/$ID/[0-9]*; do
   [ -f $d/patch.diff ] || continue
+  [ -f $d/meta.json ] || continue
+  [ -z "${FORCE:-}" ] && [ -f $d/result.$TIER.txt ] && continue
   /verif/tools/seeded.sh $d $CHECKS $TIER > $d/result.$TIER.txt 2>&1
   echo "== $d"; cat $d/result.$TIER.txt | head -12
 done
